@@ -18,6 +18,7 @@ import EPV.Lemmas.CompareGeneral
 import EPV.Lemmas.CompareCompat
 import EPV.Lemmas.CompareContext
 import EPV.Lemmas.CompareCompat2
+import EPV.Lemmas.CompareCollation
 namespace EPV.C07
 open EPV.Cmp EPV.CmpSpec EPV.CmpFind
 
@@ -691,6 +692,135 @@ theorem value_cmp_order_binary :
     rcases h with h | h
     · cases op <;> simp_all [valueOp, numRank, Op.isEqNe, isEqNe]
     · subst h; simp [valueOp, numRank, binOrdered]
+
+/-! ## the default collation of the static context (XPath 3.1 §3.7.1 / F&O §5.3; fix-c07-6) -/
+
+/-- pull-back of the order laws along a key function -/
+theorem orderLaws_comap {α β} {lt eq : β → β → Bool} (f : α → β) (h : OrderLawsOn (fun _ : β => True) lt eq) :
+    OrderLawsOn (fun _ : α => True) (fun a b => lt (f a) (f b)) (fun a b => eq (f a) (f b)) where
+  eq_refl := fun a _ => h.eq_refl (f a) trivial
+  eq_symm := fun a b => h.eq_symm (f a) (f b)
+  eq_trans := fun a b c => h.eq_trans (f a) (f b) (f c)
+  lt_irrefl := fun a => h.lt_irrefl (f a)
+  lt_trans := fun a b c => h.lt_trans (f a) (f b) (f c)
+  trichotomy := fun a b _ _ => h.trichotomy (f a) (f b) trivial trivial
+  lt_congr := fun a b c => h.lt_congr (f a) (f b) (f c)
+
+/-- COLLATION, base case.  With the Unicode codepoint collation (the default of every parser of the
+harness unless `default_collation=` is given) the collation-aware evaluators and specifications are the
+ones all other theorems of this file speak about. -/
+theorem collation_codepoint (itz : Option Int) (m : Mode) (op : Op) (L Rr : List Item) :
+    generalCmpC .codepoint itz m op L Rr = generalCmpCtx itz m op L Rr ∧
+    valueCmpC .codepoint itz m op L Rr = valueCmpCtx itz m op L Rr ∧
+    generalAllowedC .codepoint itz m op L Rr = generalAllowedCtx itz m op L Rr ∧
+    valueAllowedC .codepoint itz m op L Rr = valueAllowedCtx itz m op L Rr := by
+  refine ⟨generalCmpC_codepoint itz m op L Rr, valueCmpC_codepoint itz m op L Rr, ?_, ?_⟩
+  · cases m <;> simp [generalAllowedC, generalAllowedCtx, generalAllowed, pairSpecC_codepoint]
+  · simp only [valueAllowedC, valueAllowedCtx, valueAllowed, valueOpC_codepoint, List.isEmpty_map, List.length_map]
+    match L, Rr with
+    | [], _ => simp
+    | _ :: _, [] => simp
+    | [x], [y] => simp
+    | [x], _ :: _ :: _ => simp
+    | _ :: _ :: _, _ :: _ => simp
+
+/-- PARTIAL (findings F07, F07-promotion).  One pair of a general comparison under ANY default collation
+`c`: on a `PairClean` pair the code — `collation_operator` wrapped around the Python operator: two
+string-like operands compared through `strcoll`, every other pair untouched — yields exactly the outcome
+of XPath 3.1 §3.7.2 with the string comparisons of §3.7.1 taken under `c` (`fn:compare(A, B) op 0`). -/
+theorem general_pair_conforms_coll_partial (c : Coll) (m : Mode) (op : Op) (a b : Atom) (h : PairClean m op a b) :
+    pairGeneralWith (pyOpC c m op) m op a b = pairSpecC c m op a b :=
+  pairGeneralC_conforms c m op a b (pairGeneral_conforms_clean m op a b h) h.2.2.2.1
+
+/-- HEADLINE under a default collation and an implicit timezone.  PARTIAL (same findings). -/
+theorem general_cmp_conforms_coll_partial (c : Coll) (itz : Option Int) (m : Mode) (op : Op) (L Rr : List Item)
+    (hm : m = .v2 ∨ m = .v31)
+    (hclean : ∀ x ∈ L.map (withImplicitTz itz), ∀ y ∈ Rr.map (withImplicitTz itz),
+      PairClean m op (atomize m x) (atomize m y)) :
+    ∃ allowed, generalAllowedC c itz m op L Rr = some allowed ∧
+      outOfR (generalCmpC c itz m op L Rr) ∈ allowed := by
+  have hcompat : m.compat = false := by rcases hm with rfl | rfl <;> rfl
+  have hat : atomizeS m = atomize m := by funext x; cases x <;> rfl
+  have hprod : pairsOf = product := rfl
+  have hps : ∀ p ∈ product ((L.map (withImplicitTz itz)).map (atomize m)) ((Rr.map (withImplicitTz itz)).map (atomize m)),
+      PairClean m op p.1 p.2 := by
+    intro ⟨a, b⟩ hp
+    obtain ⟨ha, hb⟩ := mem_product.mp hp
+    obtain ⟨x, hx, rfl⟩ := List.mem_map.mp ha
+    obtain ⟨y, hy, rfl⟩ := List.mem_map.mp hb
+    exact hclean x hx y hy
+  have hmap : (product ((L.map (withImplicitTz itz)).map (atomize m)) ((Rr.map (withImplicitTz itz)).map (atomize m))).map
+        (fun p => pairSpecC c m op p.1 p.2) =
+      (product ((L.map (withImplicitTz itz)).map (atomize m)) ((Rr.map (withImplicitTz itz)).map (atomize m))).map
+        (fun p => pairGeneralWith (pyOpC c m op) m op p.1 p.2) := by
+    apply List.map_congr_left
+    intro p hp
+    exact (general_pair_conforms_coll_partial c m op p.1 p.2 (hps p hp)).symm
+  have hga : generalAllowedC c itz m op L Rr =
+      allowedOfPairs ((product ((L.map (withImplicitTz itz)).map (atomize m))
+        ((Rr.map (withImplicitTz itz)).map (atomize m))).map (fun p => pairSpecC c m op p.1 p.2)) := by
+    rcases hm with rfl | rfl <;> simp [generalAllowedC, hat, hprod]
+  rw [hga, hmap, generalCmpC_eq_any c itz m op L Rr hcompat]
+  exact anyPairs_in_allowed (pairGeneralWith (pyOpC c m op) m op) _
+    (fun p hp => pgC_ne_unsupported c m op p.1 p.2 (hps p hp).2.2.2.1)
+
+/-- the hypothesis is satisfiable, and the collation matters: under html-ascii-case-insensitive the
+sequences ('x','A') and ('b','a') have a pair in common -/
+example :
+    (∀ x ∈ [Item.atom (.str [120]), .atom (.str [65])], ∀ y ∈ [Item.atom (.str [98]), .atom (.str [97])],
+      PairClean .v2 .eq (atomize .v2 x) (atomize .v2 y)) ∧
+    generalCmpC .asciiCI none .v2 .eq [.atom (.str [120]), .atom (.str [65])] [.atom (.str [98]), .atom (.str [97])] = .ok true ∧
+    generalCmpC .codepoint none .v2 .eq [.atom (.str [120]), .atom (.str [65])] [.atom (.str [98]), .atom (.str [97])] = .ok false := by
+  refine ⟨?_, by decide +kernel, by decide +kernel⟩
+  intro x hx y hy
+  simp at hx hy
+  rcases hx with rfl | rfl <;> rcases hy with rfl | rfl <;> (unfold PairClean; decide +kernel)
+
+/-- PARTIAL (findings F07, F07-promotion).  Value comparison of two atoms under any default collation
+and implicit timezone: outside the two triggers the code returns what §3.7.1 says with the string
+comparisons under `c`, on the operands filled with the implicit timezone. -/
+theorem value_pair_conforms_coll_partial (c : Coll) (itz : Option Int) (m : Mode) (op : Op) (a b : Atom)
+    (hua : isUA a = false) (hub : isUA b = false)
+    (hTol : trigTol op (a.fillTz itz) (b.fillTz itz) = false)
+    (hProm : trigPromotion (a.fillTz itz) (b.fillTz itz) = false)
+    (hTa : atomTzOK (a.fillTz itz) = true) (hTb : atomTzOK (b.fillTz itz) = true) :
+    valuePairC c itz m op a b = valueOpC c (binOrdered m) op (a.fillTz itz) (b.fillTz itz) := by
+  rw [valuePairC_fill]
+  have hfa : isUA (a.fillTz itz) = false := by cases a <;> simp_all [isUA, Atom.fillTz]
+  have hfb : isUA (b.fillTz itz) = false := by cases b <;> simp_all [isUA, Atom.fillTz]
+  exact valuePairC_conforms c m op _ _ hfa hfb
+    (value_cmp_conforms_partial m op _ _ hfa hfb hTol hProm hTa hTb)
+
+/-- strings and anyURIs under a collation: the six operators are those of the order of the collation
+keys — `eq` an equivalence (coarser than identity: 'a' eq 'A'), `lt` a strict total order compatible
+with it -/
+theorem value_cmp_order_string_coll (c : Coll) :
+    (∀ (itz : Option Int) (m : Mode) (op : Op) (s t : Str),
+      valuePairC c itz m op (.str s) (.str t) = .ok (six (collLtS c) (collEqS c) op s t) ∧
+      valuePairC c itz m op (.uri s) (.str t) = .ok (six (collLtS c) (collEqS c) op s t) ∧
+      valuePairC c itz m op (.str s) (.uri t) = .ok (six (collLtS c) (collEqS c) op s t) ∧
+      valuePairC c itz m op (.uri s) (.uri t) = .ok (six (collLtS c) (collEqS c) op s t)) ∧
+    OrderLawsOn (fun _ : Str => True) (collLtS c) (collEqS c) := by
+  refine ⟨?_, orderLaws_comap (collFold c) listLaws⟩
+  intro itz m op s t
+  refine ⟨?_, ?_, ?_, ?_⟩ <;>
+  · rw [value_pair_conforms_coll_partial c itz m op _ _ rfl rfl rfl (by simp [trigPromotion, numRank, Atom.fillTz]) rfl rfl]
+    simp [valueOpC, Atom.fillTz]
+
+/-- (fixed, F07-collation) with default collation html-ascii-case-insensitive `'a' eq 'A'`, `'a' = 'A'` and
+`'a' lt 'B'` are true, as the specification says (`fn:compare('a', 'A')` is 0); with the codepoint
+collation they are false -/
+theorem collation_fixed :
+    valueCmpC .asciiCI none .v2 .eq [.atom (.str [97])] [.atom (.str [65])] = .ok (some true) ∧
+    valueAllowedC .asciiCI none .v2 .eq [.atom (.str [97])] [.atom (.str [65])] = some [.t] ∧
+    generalCmpC .asciiCI none .v2 .eq [.atom (.str [97])] [.atom (.str [65])] = .ok true ∧
+    generalAllowedC .asciiCI none .v2 .eq [.atom (.str [97])] [.atom (.str [65])] = some [.t] ∧
+    valueCmpC .asciiCI none .v2 .lt [.atom (.str [97])] [.atom (.str [66])] = .ok (some true) ∧
+    valueAllowedC .asciiCI none .v2 .lt [.atom (.str [97])] [.atom (.str [66])] = some [.t] ∧
+    generalCmpC .asciiCI none .v31 .eq [.atom (.ua [32, 97, 32])] [.atom (.uri [65])] = .ok true ∧
+    generalAllowedC .asciiCI none .v31 .eq [.atom (.ua [32, 97, 32])] [.atom (.uri [65])] = some [.t] ∧
+    valueCmpC .codepoint none .v2 .eq [.atom (.str [97])] [.atom (.str [65])] = .ok (some false) ∧
+    valueCmpC .codepoint none .v2 .lt [.atom (.str [97])] [.atom (.str [66])] = .ok (some false) := by decide +kernel
 
 /-! ## kernel-checked counter-examples for the findings (model ≠ specification, trigger holds) -/
 
